@@ -68,6 +68,12 @@ def build_harness(name, race=False, tags='verif'):
         if os.path.exists(out):
             os.remove(out)
         cmd = ['go', 'build', '-tags', tags, '-overlay', ov, '-o', out]
+        if REPO != '/repo':
+            # scratch worktree of the repository (mutation tests): same harness module, replace => that tree
+            mf = os.path.join(WORK, 'go.scratch.mod')
+            open(mf, 'w').write(open(os.path.join(GO, 'go.mod')).read().replace('=> /repo', '=> ' + REPO))
+            open(os.path.join(WORK, 'go.scratch.sum'), 'w').write(open(os.path.join(GO, 'go.sum')).read())
+            cmd += ['-modfile', mf]
         if race:
             cmd.append('-race')
             e = go_env(); e['CGO_ENABLED'] = '1'
@@ -81,8 +87,9 @@ def regen():
     """T-gen: regenerate lean/Netpoll/Gen/*.lean and work/facts.json from /repo's working tree."""
     with Lock('gen'):
         exe = os.path.join(BIN, 'extract')
-        src = os.path.join(VERIF, 'tools/extract/main.go')
-        if not os.path.exists(exe) or os.path.getmtime(exe) < os.path.getmtime(src):
+        sdir = os.path.join(VERIF, 'tools/extract')
+        newest = max(os.path.getmtime(os.path.join(sdir, f)) for f in os.listdir(sdir) if f.endswith('.go'))
+        if not os.path.exists(exe) or os.path.getmtime(exe) < newest:
             os.makedirs(BIN, exist_ok=True)
             rc, o = sh(['go', 'build', '-o', exe, '.'], cwd=os.path.join(VERIF, 'tools/extract'), env=go_env(), timeout=600)
             if rc != 0:
